@@ -275,7 +275,7 @@ def specval(v, st=None, ex=None):
         if isinstance(o, SymAtts):
             return o.t
         if isinstance(o, SymDict):
-            return NS(dict(present=o.present, val=o.val, nonempty=o.nonempty))
+            return NS(dict(present=o.present, val=o.val, nonempty=o.nonempty, shift=o.shift))
         if isinstance(o, DictV):
             return {k: specval(x, st, ex) for k, x in o.items.items()}
         if isinstance(o, ListV):
